@@ -50,11 +50,11 @@ func refPathParams(path string) (pp []pparam, bad bool) {
 }
 
 func runC13(c *fw.Ctx) {
+	genC13(c)
 	if refcatHook != nil {
 		refcatHook(c, "C13")
 		refcatCross(c, "C13", genC04, genC19)
 	}
-	genC13(c)
 }
 
 // genC13 is the document generator of C13 with its own judgement (or the tap's).
